@@ -1139,6 +1139,8 @@ func (ni *negInt) Value() (driver.Value, error) {
 }
 
 func dbtype(abitype string, d []byte) any {
+	// array inputs produce one value per element
+	abitype, _, _ = strings.Cut(abitype, "[")
 	switch {
 	case strings.HasPrefix(abitype, "int"):
 		x := &uint256.Int{}
